@@ -34,7 +34,7 @@ SPEC = {
   'rule': (
     'optimizer cases: random nested param trees / NNX module graphs (shared Variables, several Variable types, tags) '
     'with small integer leaves, an optax transformation drawn from stateless/stateful/chained/scheduled/adaptive families, '
-    '1-4 gradient steps, a random `wrt` filter (NNX), optional OWG form and kwargs (Linen); a case is non-trivial when at '
+    '1-4 gradient steps, ~38% of the cases in mixed precision (bfloat16/float16 params with some float32 leaves, gradients of the same or wider dtype, transformations with float32 accumulators; compared bit for bit incl. dtype with the by-hand loop), a random `wrt` filter (NNX), optional OWG form and kwargs (Linen); a case is non-trivial when at '
     'least one step is applied to at least one leaf. metric cases: integer/dyadic value streams of length 0-40 x two random '
     'partitions into scalar/array batches; non-trivial when the stream is split into >= 2 update calls. distinct = distinct '
     'canonical JSON of the case.'
@@ -82,10 +82,18 @@ def rj(f):
 
 
 def arr_json(x):
+  """flattened array as exact rationals; a non-finite entry (fp16 overflow inside optax, ...) becomes the
+  marker NONFINITE, and requests containing it are not sent to the model"""
   a = np.asarray(x)
-  if not np.all(np.isfinite(a.astype(np.float64))):
-    raise ValueError('non-finite')
-  return [rj(v) for v in a.reshape(-1).tolist()] if a.dtype.kind in 'iub' else [rj(float(v)) for v in a.reshape(-1)]
+  if a.dtype.kind in 'iub':
+    return [rj(v) for v in a.reshape(-1).tolist()]
+  return [rj(float(v)) if math.isfinite(float(v)) else 'NONFINITE' for v in a.reshape(-1)]
+
+
+def sendable(req):
+  import json as _json
+
+  return req is not None and 'NONFINITE' not in _json.dumps(req)
 
 
 def from_rj(j):
@@ -766,7 +774,7 @@ def _sched(rng):
   return f, vals
 
 
-def gen_tx(rng):
+def _gen_tx_base(rng):
   """-> (description, factory). Dyadic hyper-parameters keep float32 exact for the exact families."""
   lr = rng.choice([1.0, 0.5, 0.25, 0.125])
   mom = rng.choice([0.5, 0.25])
@@ -812,6 +820,35 @@ def gen_tx(rng):
   return f'chain(ema({mom}),sgd({lr}))', lambda: optax.chain(optax.ema(mom, debias=False), optax.sgd(lr))
 
 
+# mixed precision: set only while a case is being generated (see `seeded`); (low dtype, private rng).
+# The private rng keeps the main random stream - and so every float32 case of a given cseed - unchanged.
+_PREC = None
+F32 = jnp.float32
+
+
+def gen_tx_mixed(prng):
+  fam = prng.choice(['sgd-wide-grads', 'clip-global-norm', 'adam-mu32', 'scale-by-adam-mu32', 'momentum-acc32', 'adamw-mu32'])
+  lr = prng.choice([0.5, 0.25, 0.125])
+  if fam == 'sgd-wide-grads':
+    return f'sgd({lr})', lambda: optax.sgd(lr)
+  if fam == 'clip-global-norm':
+    return f'chain(clip_by_global_norm(1.0),sgd({lr}))', lambda: optax.chain(optax.clip_by_global_norm(1.0), optax.sgd(lr))
+  if fam == 'adam-mu32':
+    return 'adam(1e-2,mu_dtype=float32)', lambda: optax.adam(1e-2, mu_dtype=jnp.float32)
+  if fam == 'scale-by-adam-mu32':
+    return f'chain(scale_by_adam(mu_dtype=float32),scale({-lr}))', lambda: optax.chain(optax.scale_by_adam(mu_dtype=jnp.float32), optax.scale(-lr))
+  if fam == 'momentum-acc32':
+    return f'sgd({lr},momentum=0.5,accumulator_dtype=float32)', lambda: optax.sgd(lr, momentum=0.5, accumulator_dtype=jnp.float32)
+  return 'adamw(1e-2,mu_dtype=float32)', lambda: optax.adamw(1e-2, mu_dtype=jnp.float32)
+
+
+def gen_tx(rng):
+  base = _gen_tx_base(rng)
+  if _PREC is not None and _PREC[1].random() < 0.75:
+    return gen_tx_mixed(_PREC[1])
+  return base
+
+
 class SpyTx:
   """wraps a transformation and records, by value, what every `update` call was given"""
 
@@ -829,11 +866,21 @@ class SpyTx:
     self.tx = optax.GradientTransformationExtraArgs(init, update)
 
 
-def gen_array(rng, shape=None):
+def gen_array(rng, shape=None, dtype=None):
+  """small-integer array (exact in float32, bfloat16 and float16). While a mixed-precision case is being
+  generated a fresh leaf is low precision with probability 0.7, float32 otherwise."""
   if shape is None:
     shape = rng.choice([(), (1,), (2,), (3,), (2, 2), (2, 3)])
   n = int(np.prod(shape)) if shape else 1
-  return jnp.asarray(np.array([rng.randrange(-8, 9) for _ in range(n)], dtype=np.float32).reshape(shape))
+  a = jnp.asarray(np.array([rng.randrange(-8, 9) for _ in range(n)], dtype=np.float32).reshape(shape))
+  if dtype is None and _PREC is not None:
+    dtype = _PREC[0] if _PREC[1].random() < 0.7 else F32
+  return a if dtype is None else a.astype(dtype)
+
+
+def grad_dtype(x, prng):
+  """gradient dtype: the parameter's own dtype or the wider float32"""
+  return jnp.asarray(x).dtype if prng.random() < 0.5 else F32
 
 
 KEYS = ['w', 'b', 'kernel', 'bias', 'scale', 'layer0', 'layer1', 'dense', 'head', 'emb']
@@ -852,6 +899,8 @@ def gen_tree(rng, depth=0):
 
 
 def like_tree(rng, t):
+  if _PREC is not None:
+    return jax.tree.map(lambda x: gen_array(rng, tuple(np.shape(x)), grad_dtype(x, _PREC[1])), t)
   return jax.tree.map(lambda x: gen_array(rng, tuple(np.shape(x))), t)
 
 
@@ -937,10 +986,10 @@ def additions_exact(params, updates):
     u = np.asarray(u)
     if p.shape != u.shape or not (np.all(np.isfinite(p)) and np.all(np.isfinite(u))):
       return False
-    s = np.asarray(p + u, dtype=p.dtype)
-    for a, b, c in zip(p.reshape(-1), u.reshape(-1), s.reshape(-1)):
-      if Fraction(float(a)) + Fraction(float(b)) != Fraction(float(c)):
-        return False
+    for a, b in zip(p.reshape(-1), u.reshape(-1)):
+      ex = Fraction(float(a)) + Fraction(float(b))
+      if Fraction(float(ex)) != ex or Fraction(float(np.asarray(float(ex)).astype(p.dtype))) != ex:
+        return False  # not representable in the parameter's dtype: the cast-back of apply_updates rounds
   return True
 
 
@@ -1046,7 +1095,7 @@ def run_linen_case(ctx, c):
   if c['frozen']:
     params = freeze(params)
     grads = [freeze(g) for g in grads]
-  canon = {'kind': 'linen-trainstate', 'cseed': c.get('cseed'), 'force': c.get('force'), 'tx': c['tx'], 'owg': c['owg'], 'frozen': c['frozen'], 'sub': c['sub'],
+  canon = {'kind': 'linen-trainstate', 'prec': c.get('prec'), 'cseed': c.get('cseed'), 'force': c.get('force'), 'tx': c['tx'], 'owg': c['owg'], 'frozen': c['frozen'], 'sub': c['sub'],
            'params': pt_json(params), 'grads': [pt_json(g) for g in grads], 'kwargs': c['kwargs'], 'malformed': c['malformed']}
   popt = params['params'] if c['owg'] else params
   gopts = []
@@ -1148,7 +1197,7 @@ def run_linen_case(ctx, c):
       'init_table': [{'params': pt_json(popt), 'state': leaves_json(init_state)}], 'table': table,
       'steps': [{'grads': pt_json(g), 'kwargs': [[n, v] for n, v in c['kwargs'][k].items()]} for k, g in enumerate(grads)],
     }])
-  return canon, req, viol, obs
+  return canon, (req if sendable(req) else None), viol, obs
 
 
 ERR_CLASS = {'KeyError': 'KeyError', 'TypeError': 'TypeError', 'ValueError': 'ValueError', 'Tx1': 'tx-raised', 'Tx0': 'tx-unexpected-call'}
@@ -1165,6 +1214,7 @@ def check_linen(ctx, drv, cases):
     ctx.count('linen_steps', steps)
     ctx.count('linen_form', ('owg' if c['owg'] else 'plain') + ('+frozen' if c['frozen'] else '') + ('+subclass' if c['sub'] else ''))
     ctx.count('linen_malformed', c['malformed'])
+    ctx.count('linen_precision', c.get('prec') or 'float32')
     ctx.count('linen_model_compared', req is not None)
     for key, what in viol:
       ctx.violation(key, f'{what} ({c["tx"]}, owg={c["owg"]})', canon)
@@ -1401,10 +1451,14 @@ def run_optimizer_case(ctx, c):
   objs = [(p, walk(model, p)) for p, _ in full0]
   params0 = nnx.state(model, flt)
   sel_paths = {tuple(p) for p, _ in nstate_items(params0)}
-  grads = [jax.tree.map(lambda x: gen_array(grng, tuple(np.shape(x))), params0) for _ in range(c['steps'])]
+  if c.get('prec'):
+    g2 = _random.Random(c['gseed'] + 1)
+    grads = [jax.tree.map(lambda x: gen_array(grng, tuple(np.shape(x)), grad_dtype(x, g2)), params0) for _ in range(c['steps'])]
+  else:
+    grads = [jax.tree.map(lambda x: gen_array(grng, tuple(np.shape(x))), params0) for _ in range(c['steps'])]
   if c['malformed'] == 'grads-missing-leaf':
     grads[-1] = drop_state_leaf(grads[-1])
-  canon = {'kind': 'nnx-optimizer', 'cseed': c.get('cseed'), 'force': c.get('force'), 'tx': c['tx'], 'wrt': c['wrt'], 'sugar': c['sugar'], 'model': nstate_json(nnx.state(model)),
+  canon = {'kind': 'nnx-optimizer', 'prec': c.get('prec'), 'cseed': c.get('cseed'), 'force': c.get('force'), 'tx': c['tx'], 'wrt': c['wrt'], 'sugar': c['sugar'], 'model': nstate_json(nnx.state(model)),
            'aliases': reg['shared'], 'grads': [nstate_json(g) for g in grads], 'malformed': c['malformed']}
   viol = []
   init_state, trace, herr = hand_loop(c['mk'](), params0, grads)
@@ -1483,7 +1537,7 @@ def run_optimizer_case(ctx, c):
       'init_table': [{'params': nstate_json(params0), 'state': optstate_json(init_state)}], 'table': table,
       'grads': canon['grads'],
     }])
-  return canon, req, viol, obs
+  return canon, (req if sendable(req) else None), viol, obs
 
 
 def check_optimizer(ctx, drv, cases):
@@ -1500,6 +1554,7 @@ def check_optimizer(ctx, drv, cases):
     ctx.count('opt_has_shared', canon['aliases'] > 0)
     ctx.count('opt_wrt_head', next(iter(c['wrt'])) if isinstance(c['wrt'], dict) else c['wrt'])
     ctx.count('opt_malformed', c['malformed'])
+    ctx.count('opt_precision', c.get('prec') or 'float32')
     ctx.count('opt_model_compared', req is not None)
     for key, what in viol:
       ctx.violation(key, f'{what} ({c["tx"]})', canon)
@@ -1561,10 +1616,14 @@ def run_ntrainstate_case(ctx, c):
   grng = _random.Random(c['gseed'])
   model = c['model']
   graphdef, params, other = nnx.split(model, nf_python(c['wrt']), ...)
-  grads = [jax.tree.map(lambda x: gen_array(grng, tuple(np.shape(x))), params) for _ in range(c['steps'])]
+  if c.get('prec'):
+    g2 = _random.Random(c['gseed'] + 1)
+    grads = [jax.tree.map(lambda x: gen_array(grng, tuple(np.shape(x)), grad_dtype(x, g2)), params) for _ in range(c['steps'])]
+  else:
+    grads = [jax.tree.map(lambda x: gen_array(grng, tuple(np.shape(x))), params) for _ in range(c['steps'])]
   if c['malformed'] == 'grads-missing-leaf':
     grads[-1] = drop_state_leaf(grads[-1])
-  canon = {'kind': 'nnx-trainstate', 'cseed': c.get('cseed'), 'force': c.get('force'), 'tx': c['tx'], 'wrt': c['wrt'], 'params': nstate_json(params), 'grads': [nstate_json(g) for g in grads],
+  canon = {'kind': 'nnx-trainstate', 'prec': c.get('prec'), 'cseed': c.get('cseed'), 'force': c.get('force'), 'tx': c['tx'], 'wrt': c['wrt'], 'params': nstate_json(params), 'grads': [nstate_json(g) for g in grads],
            'step0': c['step0'], 'kwargs': c['kwargs'], 'malformed': c['malformed']}
   viol = []
   init_state, trace, herr = hand_loop(c['mk'](), params, grads)
@@ -1634,7 +1693,7 @@ def run_ntrainstate_case(ctx, c):
       'init_table': [{'params': nstate_json(params), 'state': optstate_json(init_state)}], 'table': table,
       'steps': [{'grads': nstate_json(g), 'kwargs': [[n, v] for n, v in c['kwargs'][k].items()]} for k, g in enumerate(grads)],
     }])
-  return canon, req, viol, obs
+  return canon, (req if sendable(req) else None), viol, obs
 
 
 def check_ntrainstate(ctx, drv, cases):
@@ -1647,6 +1706,7 @@ def check_ntrainstate(ctx, drv, cases):
     ctx.count('nts_steps', c['steps'])
     ctx.count('nts_n_params', len(canon['params']))
     ctx.count('nts_malformed', c['malformed'])
+    ctx.count('nts_precision', c.get('prec') or 'float32')
     ctx.count('nts_model_compared', req is not None)
     for key, what in viol:
       ctx.violation(key, f'{what} ({c["tx"]})', canon)
@@ -1691,9 +1751,18 @@ def run(ctx):
 def seeded(gen, cseed, force=None):
   import random as _random
 
-  c = gen(_random.Random(cseed), force) if force is not None else gen(_random.Random(cseed))
+  global _PREC
+  prng = _random.Random(cseed * 2 + 1)
+  r = prng.random()
+  low = None if r < 0.62 else (jnp.bfloat16 if r < 0.84 else jnp.float16)
+  _PREC = None if low is None else (low, prng)
+  try:
+    c = gen(_random.Random(cseed), force) if force is not None else gen(_random.Random(cseed))
+  finally:
+    _PREC = None
   c['cseed'] = cseed
   c['force'] = force
+  c['prec'] = None if low is None else jnp.dtype(low).name
   return c
 
 
